@@ -78,6 +78,16 @@ impl Duration {
     pub const fn from_secs(s: u64) -> (r: Duration)
         ensures r.ns() == s as nat * 1_000_000_000,
     { Duration { _p: () } }
+
+    /// `Ord::max` / `Ord::min` on Durations (the longer / the shorter of the two)
+    #[verifier::external_body]
+    pub fn max(self, other: Duration) -> (r: Duration)
+        ensures r.ns() == (if self.ns() >= other.ns() { self.ns() } else { other.ns() }),
+    { Duration { _p: () } }
+    #[verifier::external_body]
+    pub fn min(self, other: Duration) -> (r: Duration)
+        ensures r.ns() == (if self.ns() <= other.ns() { self.ns() } else { other.ns() }),
+    { Duration { _p: () } }
 }
 
 impl vstd::std_specs::cmp::PartialEqSpecImpl for Duration {
